@@ -307,7 +307,7 @@ def check_c16(tier):
         for h in header_variants():
             for nm in names:
                 b = build('fsmx.cpp', CONFIGS[nm], header=h)
-                run = run_fsmx(b, nm + '/neutral', ['C16'], d, mfv, ogv | og('LOG'), workers=NCPU, flags=[nflag], deadline=200)
+                run = run_fsmx(b, nm + '/neutral', ['C16'], d, mfv, ogv | og('LOG'), workers=NCPU, flags=[nflag], deadline=200 if tier == 'quick' else 1200)
                 rs = dict(S(nm, d, mfv, ogv)); rs['header'] = h
                 V.add_fsmx(run, nm, CONFIGS[nm], rs)
                 if run['result']:
